@@ -105,8 +105,8 @@ def check_pipelines(rep, prog, fm, cfg):
         ok = names == ["generatePH", "generateUH", "considerPEL"]
         if ok:
             ph, uh, cp = seq
-            ph_ret = Op("unpack", Op("call:" + PT + "generatePH", *ph.data[1]), Const(0))
-            okc = cp.data[1][1] == c and isinstance(cp.data[1][0], Op) and cp.data[1][0].op == "unpack" and cp.data[1][0].args[1] == Const(1)
+            ph_ret = Op("getitem", Op("call:" + PT + "generatePH", *ph.data[1]), Const(0))
+            okc = cp.data[1][1] == c and isinstance(cp.data[1][0], Op) and cp.data[1][0].op == "getitem" and cp.data[1][0].args[1] == Const(1)
             # section loop only on paths where all three succeeded
             sf = [e for e in I.events if e.kind == "opaquecall" and e.data[0] == PT + "sectionFun"]
             cpt = Op("call:" + PT + "considerPEL", *cp.data[1])
@@ -135,8 +135,8 @@ def check_pipelines(rep, prog, fm, cfg):
                 a, b = (nx.a, nx.b) if nx.b == lv[0] else (nx.b, nx.a)
                 cond = nx.c if nx.b == lv[0] else not_(nx.c)
                 if a == pelx.add(lv[0], Const(1)) and b == lv[0]:
-                    ph_ok = Op("unpack", Op("call:" + PT + "generatePH", *[fm.norm(x) for x in seq[0].data[1]]), Const(0))
-                    uh_ok = Op("unpack", Op("call:" + PT + "generateUH", *[fm.norm(x) for x in seq[1].data[1]]), Const(0))
+                    ph_ok = Op("getitem", Op("call:" + PT + "generatePH", *[fm.norm(x) for x in seq[0].data[1]]), Const(0))
+                    uh_ok = Op("getitem", Op("call:" + PT + "generateUH", *[fm.norm(x) for x in seq[1].data[1]]), Const(0))
                     cp_ok = Op("call:" + PT + "considerPEL", *[fm.norm(x) for x in cp.data[1]])
                     want = and_(ph_ok, uh_ok, cp_ok)
                     core = and_(*[c2 for c2 in conj(cond) if not (isinstance(c2, Op) and c2.op == "not" and isinstance(c2.args[0], Sym))])
@@ -165,7 +165,7 @@ def check_pipelines(rep, prog, fm, cfg):
         base = {fm.norm(b) for b in getattr(L, "body_guard_full", set())}
         extra = [c for c in conj(fm.norm(st[0].guard)) if c not in base]
         ok = len(extra) == 1 and any(isinstance(x, Op) and x.op.startswith("call:" + PT + "extractAndSummarizePEL") or
-                                     isinstance(x, Op) and x.op == "unpack" for x in walk(extra[0]))
+                                     isinstance(x, Op) and x.op == "getitem" for x in walk(extra[0]))
     rep.check(ok, rule, "list mode: one entry per selected file, stored under its entry id", q, "final_summary[eid] = summary",
               "list mode does not add exactly one entry per decoded+selected file")
     # all: the document print guard
